@@ -267,7 +267,7 @@ func runFQL(prog *runtime.Program, drv *httpdrv.Driver, ctx context.Context, url
 
 func work(out, tier string, seed int64) {
 	rng := rand.New(rand.NewSource(seed))
-	nReq, nSets, nResp := 220, 10, 40
+	nReq, nSets, nResp := 220, 14, 40
 	if tier == "thorough" {
 		nReq, nSets, nResp = 3000, 40, 400
 	}
@@ -358,6 +358,14 @@ func work(out, tier string, seed int64) {
 		id := fmt.Sprintf("q%d", i)
 		url := srv.set(id, script{Status: 200})
 		drv := httpdrv.NewDriver(opts...)
+		if i%4 == 1 {
+			// a request history on one driver: an earlier response sets cookies and
+			// headers; the next request must still carry exactly what is configured
+			prime := srv.set(id+"p", script{Status: 200, Cookies: [][2]string{{"srv", "tracked"}, {"sid", "s1"}}, Headers: [][2]string{{"X-Alpha", "from-server"}}})
+			_, _ = runFQL(progStatus, drv, context.Background(), prime, map[string]interface{}{})
+			m.Count("request:after-priming-response")
+			m.Evaluations++
+		}
 		_, rerr := runFQL(progStatus, drv, context.Background(), url, p)
 		m.Evaluations++
 		recs := srv.get(id)
@@ -436,6 +444,9 @@ func work(out, tier string, seed int64) {
 		{Query: []qrule{{404, base + "/other/*"}, {403, "*nomatch"}}},
 		{Query: []qrule{{500, "*nomatch"}, {502, "http://127.0.0.1:" + strings.Repeat("?", len(port)) + "/r/s*"}}, Driver: []int{500}},
 		{Query: []qrule{{418, "http://*:" + port + "/r/s?-*"}, {599, "*"}, {300, ""}}, Driver: []int{302, 304}},
+		// several rules for one code: any matching one accepts
+		{Query: []qrule{{404, base + "/other/*"}, {404, "*"}, {500, "*nomatch"}, {500, ""}}},
+		{Query: []qrule{{403, "*nomatch"}, {403, base + "/zzz*"}, {403, base + "/r/*"}, {410, "*"}, {410, "*nomatch"}}},
 	}
 	pats := []string{"", "*", base + "/r/*", "*/r/s*", base + "/zzz*", "http://*", "https://*", "*" + port + "*", "?" + base[1:] + "*", base + "/r/s??-*",
 		"*-4??", "*-?0?", "*5", base + "/r/s*-30?", "*-404", "*-2*"}
@@ -444,8 +455,13 @@ func work(out, tier string, seed int64) {
 		for k := rng.Intn(3); k > 0; k-- {
 			rs.Driver = append(rs.Driver, 200+rng.Intn(400))
 		}
-		for k := rng.Intn(4); k > 0; k-- {
-			rs.Query = append(rs.Query, qrule{200 + rng.Intn(400), pats[rng.Intn(len(pats))]})
+		few := []int{404, 500, 301, 418, 403}
+		for k := rng.Intn(5); k > 0; k-- {
+			code := 200 + rng.Intn(400)
+			if rng.Intn(2) == 0 {
+				code = few[rng.Intn(len(few))] // repeated codes with different patterns
+			}
+			rs.Query = append(rs.Query, qrule{code, pats[rng.Intn(len(pats))]})
 		}
 		sets = append(sets, rs)
 	}
